@@ -8,6 +8,7 @@ pub mod report;
 pub mod trace;
 pub mod httpref;
 pub mod web;
+pub mod reqref;
 pub mod appgen;
 pub mod tuples_gen;
 pub mod engines;
